@@ -171,7 +171,8 @@ def check_method(C, cls_label, cname, name, m, inst, md, viols, nested_cls):
         viols.append(violation(PROP, S("too_many_positionals_accepted"), {"signature": str(sig), "outcome": repr(res[2])[:100]}, case(how="extra_positional")))
     # (5) unadvertised names on the REAL method
     if not has_adv_varkw:
-        unadv = ["zzz_other", "_private", "hidden", "extras", "nmae", "__class__x"]
+        # incl. init-enabled attributes of OTHER spec classes that are in use (Leaf.x / ys, Keyed.key / n / zs, NestO.x, NestK.n)
+        unadv = ["zzz_other", "_private", "hidden", "extras", "nmae", "__class__x", "x", "ys", "key", "n", "zs", "plain"]
         before = snap.canon([inst])
         for u in unadv:
             if u in adv_names:
@@ -189,6 +190,30 @@ def check_method(C, cls_label, cname, name, m, inst, md, viols, nested_cls):
             n_checks += 1
             if snap.canon([inst]) != before:
                 viols.append(violation(PROP, S("unadvertised_keyword_changed_receiver"), {"keyword": u}, case(how="unadvertised", keyword=u)))
+                break
+    # (5b) real behaviour: explicit FALSY conforming values given to the constructor arrive as given
+    if name == "__init__":
+        cls = type(inst)
+        for attr, a in md.attrs.items():
+            if not a.init or attr == md.init_overflow_attr:
+                continue
+            for fv in (0, "", [], {}, set(), None, False):
+                from spec_classes.utils.type_checking import check_type as _ct
+
+                if not _ct(fv, a.type) or (a.is_collection and not isinstance(fv, (list, dict, set))):
+                    continue
+                kw = {md.key: vars(inst)[md.key]} if md.key and md.key in vars(inst) and md.key != attr else {}
+                try:
+                    o = cls(**dict(kw, **{attr: fv}))
+                except Exception:
+                    continue
+                n_checks += 1
+                got = vars(o).get(attr, "<missing>")
+                if got != fv or type(got) is not type(fv):
+                    if a.prepare or a.prepare_item:
+                        continue
+                    viols.append(violation(PROP, S("falsy_constructor_value_not_stored", attr_owner="parent" if a.owner is not cls else "own"),
+                                           {"attr": attr, "given": repr(fv), "stored": repr(got)[:80]}, case(how="falsy", keyword=attr)))
                 break
     # (6) nested keywords one-to-one with the init-enabled attributes of the nested class
     if nested_cls is not None and name not in ("reset",) and not name.startswith(("reset_", "without_")):
